@@ -375,6 +375,10 @@ def directed_shapes():
     sh.append(("upcast-referenced", lambda ctx, a: (lambda t: t * t + t)(ctx.upcast(a)), 1))
     sh.append(("downcast-referenced", lambda ctx, a: (lambda t: t * t + t)(ctx.downcast(a)), 1))
     sh.append(("downcast(upcast(a)*upcast(a))", lambda ctx, a: ctx.downcast(ctx.upcast(a) * ctx.upcast(a)), 1))
+    # one context in which the same operand meets two different partners (a promotion memoised / keyed too coarsely answers the second like the first)
+    sh.append(("one-left-operand-two-partners", lambda ctx, a, b, c: (a + b) * (a * c), 3))
+    sh.append(("one-left-operand-two-partners-other-order", lambda ctx, a, b, c: (lambda u, t: t - u)(a * c, a + b), 3))
+    sh.append(("one-right-operand-two-partners", lambda ctx, a, b, c: (b + a) * (c / a), 3))
     for c in ("eps", "largest", "smallest", "pi", "posinf"):
         sh.append((f"named-constant:{c}", lambda ctx, a, b, c=c: ctx.real(a) * ctx.constant(c, a) + b, 2))
         sh.append((f"named-constant-result:{c}", lambda ctx, a, c=c: ctx.constant(c, a), 1))
@@ -391,7 +395,7 @@ def task_directed(params, rec):
     for label, fn, nsym in shapes:
         for dts in itertools.product(DTYPES, repeat=nsym):
             for algebraic in (True, False):
-                names = "ab"[:nsym]
+                names = "abc"[:nsym]
                 ns = dict(_fn=fn)
                 exec("def d(ctx, %s):\n    return _fn(ctx, %s)\n" % (", ".join(names), ", ".join(names)), ns)
                 ctx = fa.Context(paths=[fa.algorithms])
